@@ -474,7 +474,12 @@ fn compare_renumbered_from(table: &CosetTable, start: usize) -> isize {
         assert!(row < n2o.len(), "coset table is not transitive");
 
         for g in table.all_gens() {
-            let oval = table.get(row, g).unwrap_or(n);
+            // An entry that is still undefined in the table itself may get
+            // any value later, so nothing can be concluded from here on.
+            let oval = match table.get(row, g) {
+                Some(v) => v,
+                None => return 0,
+            };
 
             let nval = if let Some(t) = table.get(n2o[&row], g) {
                 if !o2n.contains_key(&t) {
